@@ -32,11 +32,40 @@ def tree_path(g, parent, node):
     return path
 
 
-def cover(g, init=None, max_len=400, edge_filter=None, limit=None):
+def _nearest_uncovered(g, start, covered, wantset, max_depth=8, max_nodes=3000):
+    """Shortest edge path from `start` to a node that has an uncovered wanted out-edge (bounded BFS)."""
+    seen = {start: None}
+    dq = deque([(start, 0)])
+    n = 0
+    while dq:
+        u, d = dq.popleft()
+        n += 1
+        if n > max_nodes:
+            return None
+        for ei in g.out.get(u, ()):
+            v = g.edges[ei][1]
+            if v in seen:
+                continue
+            seen[v] = ei
+            if any(ne not in covered and ne in wantset for ne in g.out.get(v, ())):
+                path = []
+                cur = v
+                while seen[cur] is not None:
+                    path.append(seen[cur])
+                    cur = g.edges[seen[cur]][0]
+                path.reverse()
+                return path
+            if d + 1 < max_depth:
+                dq.append((v, d + 1))
+    return None
+
+
+def cover(g, init=None, max_len=400, edge_filter=None, limit=None, covered=None, jump=True):
     if init is None:
         init = g.init[0]
     parent, order = bfs_tree(g, init)
-    covered = set()
+    if covered is None:
+        covered = set()
     paths = []
     want = [ei for ei in range(len(g.edges)) if edge_filter is None or edge_filter(g.edges[ei])]
     wantset = set(want)
@@ -60,6 +89,17 @@ def cover(g, init=None, max_len=400, edge_filter=None, limit=None):
                     if ne not in covered and ne in wantset:
                         nxt = ne
                         break
+                if nxt is None and jump and len(path) + 9 < max_len:
+                    hop = _nearest_uncovered(g, v, covered, wantset)
+                    if hop:
+                        for he in hop:
+                            path.append(he)
+                            covered.add(he)
+                        v = g.edges[hop[-1]][1]
+                        for ne in g.out.get(v, ()):
+                            if ne not in covered and ne in wantset:
+                                nxt = ne
+                                break
                 if nxt is None:
                     break
                 cur_e = nxt
